@@ -76,10 +76,10 @@ CLAIMED = {
     },
     "C08": {
         "text": "Lean 4 theorems (Props/C08.lean): a started read and a writer behave identically from every check state (C08_reader_fresh, C08_writer_fresh, "
-                "C08_run_fresh) and every run of any history equals the same run on a fresh CID (C08_history_partial, all histories without validate(limit=0)); "
-                "C08_validate0_counterexample proves the excluded case really depends on earlier state. Correspondence: all histories up to length 3 (quick) / 4 "
-                "(thorough) over 8 operations x 2 CIDs, each run compared with the same run on a fresh CID and with the model.",
-        "note": "Trusted: Lean kernel; that Reader.rows/Writer.__init__ reset every check as the model says (correspondence). Known finding: validate(limit=0).",
+                "C08_run_fresh) and every run of any history - reads, writes, abandoned or unclosed runs, validate(limit=0) - equals the same run on a fresh CID "
+                "(C08_history, no exclusion; C08_validate0_fresh). Correspondence: all histories up to length 3 (quick) / 4 "
+                "(thorough) over 15 operations x 2 CIDs, each run compared with the same run on a fresh CID and with the model.",
+        "note": "Trusted: Lean kernel; that Reader.rows/Writer.__init__ reset every check as the model says (correspondence). The former finding validate(limit=0) was repaired (f2ab276) and the theorem restated without the exclusion.",
         "technique": "Lean 4 proof (state independence) + exhaustive history enumeration as correspondence",
         "design_ref": "DESIGN.md §6 C08",
     },
